@@ -210,6 +210,20 @@ def audit_axioms(prop: str) -> dict:
     return {"axioms": result, "missing": missing, "raw": out if (missing or p.returncode != 0) else ""}
 
 
+def replay_full_rerun(ctx, run_fn) -> int:
+    """for violations that depend on the history of a whole run (shared caches, held results): re-run the property's
+    sweep in replay mode; exit 1 iff a violation shows again"""
+    ctx.replaying = True
+    ctx.replay_hits = []
+    ctx.deferred = []
+    run_fn(ctx)
+    for d in ctx.deferred:
+        print(f"  reproduced: {d[0]}: {d[1][:400]}")
+    if not (ctx.replay_hits or ctx.deferred):
+        print("  not reproduced on this tree: the property's sweep passes")
+    return 1 if (ctx.replay_hits or ctx.deferred) else 0
+
+
 class Driver:
     """The compiled Lean model behind a line protocol (batch request / batch answer)."""
 
